@@ -224,7 +224,7 @@ def mesh_specs(draw, tier):
             "mesh": draw(st.lists(st.integers(2, 6 if tier == "thorough" else 5), min_size=3, max_size=3)),
             "ms": draw(st.booleans()), "key": draw(keys), "smear": draw(st.sampled_from(["Normal", "Cauchy"])),
             "direction": draw(st.lists(st.floats(-1, 1, allow_nan=False), min_size=3, max_size=3).filter(lambda d: sum(x * x for x in d) > 1e-2)),
-            "gc": draw(st.booleans())}
+            "gc": draw(st.booleans()), "peek": draw(st.booleans())}
 
 
 def run_mesh(spec):
@@ -256,6 +256,11 @@ def run_mesh(spec):
         thm = TetrahedronMesh(ph.primitive, f, m.mesh_numbers, np.array(m.grid_address, dtype="int64"),
                               np.array(m.grid_mapping_table, dtype="int64"), m.ir_grid_points, lang=lang)
         probes = np.array([fmin - 0.3 * span, fmax + 0.3 * span, fmin + 0.37 * span, fmin + 0.71 * span])
+        peek = bool(spec.get("peek"))
+        if peek:
+            # the object was used before: a first look at the density weights of the first grid point only, then set() for the real pass
+            thm.set(value="I", frequency_points=probes, lang=lang)
+            next(iter(thm))
         thm.set(value="J", frequency_points=probes, lang=lang)
         tot = np.zeros(4)
         w = d["weights"]
